@@ -149,7 +149,7 @@ pub fn generate(seed: u64) -> AllocCase {
     let n0 = *rng.pick(&[256u64, 384, 512, 768, 1024]);
     let family = *rng.pick(&[
         "list", "list", "rows", "dict", "vector", "bytes", "field", "dict-default", "two-lists", "wide-rows",
-        "dict-of-lists", "dict-of-sets",
+        "dict-of-lists", "dict-of-sets", "user-op",
     ]);
     let mut setup: Vec<String> = Vec::new();
     let mut pool: Vec<&str> = Vec::new();
@@ -200,7 +200,21 @@ pub fn generate(seed: u64) -> AllocCase {
                 "x[\"a\"][{I}] += 1",
                 "pop x[\"b\"]",
                 "x[\"a\"] ++= [{I}]",
+                "x ||++= {\"a\": [{I}]}",
+                "x ||++= {\"b\": [{I}, 1], \"a\": []}",
             ];
+        }
+        "user-op" => {
+            // a user-written function as the operator of an operator-assignment: the variable is
+            // handed to the callee as the only holder, the callee mutates its parameter and
+            // returns it; also through a struct field
+            setup.push("struct Holder (elems, tag = 0)".into());
+            setup.push("push := \\s, v -> (s append= v; s)".into());
+            setup.push("setat := \\s, v -> (s[v] = 1; s)".into());
+            setup.push("pushf := \\s, v -> (s[elems] append= v; s)".into());
+            setup.push("x := [0] ** {N}".into());
+            setup.push("h := Holder([0] ** {N})".into());
+            pool = vec!["x push= {I}", "x setat= {I}", "h pushf= {I}", "x[0] max= {I}"];
         }
         "dict-of-sets" => {
             setup.push("x := {0: {}, 1: {}}".into());
@@ -284,7 +298,7 @@ pub fn generate(seed: u64) -> AllocCase {
 
 fn restore_expr(family: &str) -> &'static str {
     match family {
-        "list" | "two-lists" => "[0] ** (2 * {N})",
+        "list" | "two-lists" | "user-op" => "[0] ** (2 * {N})",
         "rows" => "(0 til {N}) map (\\i -> [i, 0, 0, 0])",
         "wide-rows" => "[[0] ** (2 * {N}), [1] ** (2 * {N})]",
         "dict-of-lists" => "{\"a\": [0] ** (2 * {N}), \"b\": [1] ** (2 * {N})}",
